@@ -90,6 +90,10 @@ def run(ctx):
     clean, lane2 = profile(False), profile(True)
     maxd = ctx.pick(4, 6)
     n = ctx.pick(2500, 60000)
+    for fname in sorted(SQLITE_FUNCS):
+        if ctx.mine(sorted(SQLITE_FUNCS).index(fname)):
+            SC.judge(ctx, scalar.simple_filter_for(rng, lane2, fname), rng, select,
+                     findings.sqlite_semantic_triggers, "coverage", extra_case=case_extra, profile=lane2)
     for i in range(n):
         if ctx.out_of_time():
             break
